@@ -67,3 +67,54 @@ func vp_C11_three_sets() {
 	}
 	vpReach("done", true)
 }
+
+// vp:check C10 both K=24 timeout=900
+// vp:check C11 both K=24 timeout=900
+// vp_C10_v1_block: state resolution v1 on three state sets that differ in the power-levels event. The candidates are
+// taken in order of depth; the first one is the starting point, each further one is adopted if it passes the auth
+// check against the state built so far, and the scan stops at the first candidate that fails. Candidate B (by a user
+// of level 0, or by Alice) sits between A and C in depth. The result does not depend on the order of the sets.
+func vp_C10_v1_block() {
+	ver := RoomVersionV1
+	h := vpBaseRoom(ver)
+	bobJoin := vpSetAuth(vpMkEvent(ver, "$bj:x", h.room, vpBob, spec.MRoomMember, vpStrPtr(vpBob), vpJObj("membership", spec.Join)), []string{h.createID, "$pl:x"}, 4, 4)
+	agreed := []PDU{h.create, h.join, bobJoin}
+	mk := func(id, sender string, depth int64, note string) PDU {
+		c := vpJObj("users", vpJObj(vpAlice, int64(100)), "state_default", int64(50), "events_default", int64(0), "note", note)
+		return vpSetAuth(vpMkEvent(ver, id, h.room, sender, spec.MRoomPowerLevels, vpStrPtr(""), c), []string{h.createID, "$join:x", "$pl:x", "$bj:x"}, uint64(depth), depth)
+	}
+	bBy := vpChoice("middle_candidate_by", vpBob, vpAlice) // Bob has level 0: his candidate fails the auth check
+	pa := h.pl                                              // depth 3, by Alice: the base power levels
+	pb := mk("$plb:x", bBy, 5, "b")
+	pc := mk("$plc:x", vpAlice, 6, "c")
+	sets := [][]PDU{append(append([]PDU{}, agreed...), pa), append(append([]PDU{}, agreed...), pb), append(append([]PDU{}, agreed...), pc)}
+	auth := append(append([]PDU{}, agreed...), pa)
+	perm := vpChoice("set_order", "abc", "cba", "bca")
+	ordered := sets
+	switch perm {
+	case "cba":
+		ordered = [][]PDU{sets[2], sets[1], sets[0]}
+	case "bca":
+		ordered = [][]PDU{sets[1], sets[2], sets[0]}
+	}
+	res, err := ResolveConflictsNew(ver, ordered, auth, vpUserIDForSender, vpNotRejected)
+	vpAssert("no-error", err == nil)
+	got := vpIDSet(res)
+	want := "$plc:x" // A, then B (passes), then C (passes)
+	if bBy == vpBob {
+		want = "$pl:x" // B fails: the scan stops, C is never considered
+	}
+	n := 0
+	for _, id := range []string{"$pl:x", "$plb:x", "$plc:x"} {
+		if got[id] {
+			n++
+		}
+	}
+	vpAssert("one-power-levels-event", n == 1)
+	vpAssert("v1-stops-at-first-failing-candidate", got[want])
+	for _, e := range agreed {
+		vpAssert("agreed-events-kept", got[e.EventID()])
+	}
+	vpReach("b-fails", bBy == vpBob)
+	vpReach("all-pass", bBy == vpAlice)
+}
